@@ -431,6 +431,22 @@ class WorkTree:
                 )
             tree_path = _fs_to_tree_path(fs_path)
             full_path = os.path.join(root_path_bytes, fs_path)
+            parts = tree_path.split(b"/")
+            leading = (b"/".join(parts[:i]) for i in range(1, len(parts)))
+            if any(
+                stat.S_ISLNK(getattr(index[d], "mode", 0))
+                and os.path.islink(os.path.join(root_path_bytes, d))
+                for d in leading
+                if d in index
+            ):
+                # A leading directory is a symlink and tracked as one (it may
+                # have been staged a moment ago): the path lies beyond a
+                # symbolic link and is gone as far as the index is concerned.
+                try:
+                    del index[tree_path]
+                except KeyError:
+                    pass
+                continue
             try:
                 st = os.lstat(full_path)
             except (FileNotFoundError, NotADirectoryError):
